@@ -37,7 +37,7 @@ type FuncResult struct {
 func (P *Program) newCtx(fn *ssa.Function) *Ctx {
 	return &Ctx{prog: P, fn: fn, declared: map[string]string{}, assumed: map[string]bool{}, inlined: map[string]bool{},
 		strConsts: map[string]string{}, oblSeq: map[string]int{}, curReach: "true",
-		seenTypes: map[string]bool{}, seenIfaces: map[string]bool{}, phiConds: map[phiKey]string{}}
+		seenTypes: map[string]bool{}, seenIfaces: map[string]bool{}, phiConds: map[phiKey]string{}, atCallSeen: map[*AtClause]bool{}}
 }
 
 // VerifyFunc generates all obligations of fn against its contract (which may be nil: safety only).
@@ -123,7 +123,7 @@ func (P *Program) VerifyFunc(fn *ssa.Function) (res *FuncResult) {
 		}
 	}
 	var locs []loc
-	if con != nil {
+	if con != nil && !con.AssignsAll {
 		locs = c.assignLocs(penv(fr.old), con)
 	}
 
@@ -154,18 +154,25 @@ func (P *Program) VerifyFunc(fn *ssa.Function) (res *FuncResult) {
 				g := env.evalTop(en)
 				c.oblige("post", fmt.Sprintf("%s#post[%s]", name, lbl(en)), en.Label, en.Props, g.Term, ex.site.Pos(), en.Src)
 			}
-			if con.Panics != nil {
+			for _, pcl := range []*Clause{con.Panics, con.Exits} {
+				if pcl == nil {
+					continue
+				}
 				pe := penv(fr.old)
-				g := pe.evalTop(con.Panics)
-				c.oblige("post", fmt.Sprintf("%s#returns-only-if-not[%s]", name, lbl(con.Panics)), con.Panics.Label, con.Panics.Props, not(g.Term), ex.site.Pos(), "normal return implies !("+con.Panics.Src+")")
+				g := pe.evalTop(pcl)
+				c.oblige("post", fmt.Sprintf("%s#returns-only-if-not[%s]", name, lbl(pcl)), pcl.Label, pcl.Props, not(g.Term), ex.site.Pos(), "normal return implies !("+pcl.Src+")")
 			}
 			if con.NoReturn {
 				c.oblige("post", name+"#noreturn", "", props, "false", ex.site.Pos(), "function declared noreturn returns")
 			}
-			c.frameObligations(fr, ex, locs, name, props)
+			if !con.AssignsAll {
+				c.frameObligations(fr, ex, locs, name, props)
+			}
 		case "panic":
 			c.atAsserts(fr, ex, "panic")
-			if con != nil && con.Panics != nil {
+			if con != nil && con.MayPanic {
+				// unspecified
+			} else if con != nil && con.Panics != nil {
 				pe := penv(fr.old)
 				g := pe.evalTop(con.Panics)
 				c.oblige("safety", fmt.Sprintf("%s#panic-only-when[%s]", c.relName(ex.fr.fn), lbl(con.Panics)), con.Panics.Label, con.Panics.Props, g.Term, ex.site.Pos(), "panic reached only when "+con.Panics.Src)
@@ -174,13 +181,26 @@ func (P *Program) VerifyFunc(fn *ssa.Function) (res *FuncResult) {
 			}
 		case "exit":
 			c.atAsserts(fr, ex, "exit")
-			if con == nil || !c.hasAt(con, "exit") {
+			if con != nil && con.MayPanic {
+				// unspecified
+			} else if con != nil && con.Exits != nil {
+				pe := penv(fr.old)
+				g := pe.evalTop(con.Exits)
+				c.oblige("safety", fmt.Sprintf("%s#exit-only-when[%s]", c.relName(ex.fr.fn), lbl(con.Exits)), con.Exits.Label, con.Exits.Props, g.Term, ex.site.Pos(), "process exit reached only when "+con.Exits.Src)
+			} else {
 				c.oblige("safety", fmt.Sprintf("%s#safe{process exit}", c.relName(ex.fr.fn)), "", nil, "false", ex.site.Pos(), "os.Exit unreachable")
 			}
 		}
 	}
 	c.curReach = "true"
 	_ = returns
+	if con != nil {
+		for _, a := range con.Asserts {
+			if strings.HasPrefix(a.Where, "call ") && !c.atCallSeen[a] {
+				c.oblige("assert", fmt.Sprintf("%s#at-%s.reached[%s]", name, strings.ReplaceAll(a.Where, " ", "-"), lbl(a.Clause)), a.Clause.Label, a.Clause.Props, "false", fn.Pos(), "the call site named by the at-clause exists: "+a.Where)
+			}
+		}
+	}
 	return res
 }
 
@@ -238,10 +258,11 @@ func (c *Ctx) frameObligations(fr *Frame, ex *exitInfo, locs []loc, name string,
 		if cur == init {
 			continue
 		}
-		srt, ok := c.declared[init]
+		srt, ok := c.compSorts[leaf]
 		if !ok {
 			continue
 		}
+		c.declare(init, srt)
 		var mine []loc
 		whole := false
 		for _, l := range locs {
@@ -363,6 +384,7 @@ func (r *FuncResult) SMTx(o *Obligation, withModel bool, qf bool) string {
 		for _, in := range r.Inputs {
 			vals = append(vals, in)
 		}
+		vals = append(vals, r.modelTerms(o)...)
 		if len(vals) > 0 {
 			sb.WriteString("(get-value (" + strings.Join(vals, " ") + "))\n")
 		}
@@ -507,4 +529,50 @@ func (o *Obligation) Failed() bool {
 		return o.Result.Status != "sat"
 	}
 	return o.Result.Status != "unsat"
+}
+
+// modelTerms: extra terms whose model values make a counterexample readable and replayable:
+// scalar fields of the structs the pointer parameters point to, scalar globals and ghost variables
+// (all in the pre-state).
+func (r *FuncResult) modelTerms(o *Obligation) []string {
+	c := r.ctx
+	declared := map[string]bool{}
+	for _, d := range c.decls[:o.NDecls] {
+		f := strings.Fields(d)
+		if len(f) > 1 {
+			declared[f[1]] = true
+		}
+	}
+	var out []string
+	var leafs []string
+	for leaf := range c.compSorts {
+		leafs = append(leafs, leaf)
+	}
+	sort.Strings(leafs)
+	top := c.topFrame
+	for _, leaf := range leafs {
+		srt := c.compSorts[leaf]
+		name := sym(leaf + "@0")
+		if !declared[name] {
+			continue
+		}
+		switch {
+		case srt == "Int" || srt == "Bool":
+			out = append(out, name)
+		case srt == "(Array Int Int)" || srt == "(Array Int Bool)":
+			if top == nil {
+				continue
+			}
+			for i, p := range top.fn.Params {
+				pt, ok := p.Type().Underlying().(*types.Pointer)
+				if !ok || i >= len(top.params) || top.params[i].Term == "" {
+					continue
+				}
+				if strings.HasPrefix(leaf, "F:"+typeName(pt.Elem())+".") {
+					out = append(out, app("select", name, top.params[i].Term))
+				}
+			}
+		}
+	}
+	return out
 }
